@@ -2,7 +2,7 @@
    transition system (M9): async_add at arrival time, async_ready when one of the pending
    loop.call_at timers fires. Answers are a dict keyed by record identity (abstract ids here;
    the payload - the additionals - rides along). Timers are never cancelled by the code. *)
-From ZC Require Import Model.Base Model.Dict Gen.Const.
+From ZC Require Import Model.Base Model.Dict Gen.Const Gen.Sites.
 
 Definition answers := list (Z * list Z).        (* record id -> additionals *)
 
@@ -31,7 +31,9 @@ Fixpoint replace_last (gs : list group) (f : group -> group) : list group :=
   end.
 
 (* async_add(now, answers) executed at loop time [tnow] with random draw [rnd] in the interval *)
-Definition async_add (q : oq) (now tnow rnd : Z) (a : answers) : oq :=
+Definition async_add :=
+  Eval cbv beta iota delta [sop_apply site_oq_merge] in
+  fun (q : oq) (now tnow rnd : Z) (a : answers) =>
   let random_delay := rnd + q_additional q in
   let send_after := now + random_delay in
   let send_before := now + q_aggregation q + q_additional q in
@@ -42,7 +44,7 @@ Definition async_add (q : oq) (now tnow rnd : Z) (a : answers) : oq :=
          q_additional := q_additional q; q_aggregation := q_aggregation q |}
   | gs =>
       let lastg := last gs {| g_after := 0; g_before := 0; g_answers := [] |} in
-      if send_after <=? g_after lastg then
+      if sop_apply site_oq_merge send_after (g_after lastg) then
         {| q_groups := replace_last gs (fun g => {| g_after := g_after g; g_before := g_before g;
                                                      g_answers := a_update (g_answers g) a |});
            q_timers := q_timers q; q_additional := q_additional q; q_aggregation := q_aggregation q |}
@@ -51,17 +53,21 @@ Definition async_add (q : oq) (now tnow rnd : Z) (a : answers) : oq :=
            q_timers := q_timers q; q_additional := q_additional q; q_aggregation := q_aggregation q |}
   end.
 
-Fixpoint pop_due (gs : list group) (now : Z) (acc : answers) : list group * answers :=
+Definition pop_due :=
+  Eval cbv beta iota delta [sop_apply site_oq_ready_due] in
+  fix pop_due (gs : list group) (now : Z) (acc : answers) {struct gs} : list group * answers :=
   match gs with
-  | g :: r => if g_after g <=? now then pop_due r now (a_update acc (g_answers g)) else (gs, acc)
+  | g :: r => if sop_apply site_oq_ready_due (g_after g) now then pop_due r now (a_update acc (g_answers g)) else (gs, acc)
   | [] => ([], acc)
   end.
 
 (* async_ready() run at time [now]; returns the new state and what is sent (None = nothing) *)
-Definition async_ready_body (q : oq) (now : Z) : oq * option answers :=
+Definition async_ready_body :=
+  Eval cbv beta iota delta [sop_apply site_oq_ready_wait] in
+  fun (q : oq) (now : Z) =>
   match q_groups q with
   | g0 :: _ :: _ =>
-      if g_before g0 >? now then
+      if sop_apply site_oq_ready_wait (g_before g0) now then
         ({| q_groups := q_groups q; q_timers := q_timers q ++ [now + (g_before g0 - now)];
             q_additional := q_additional q; q_aggregation := q_aggregation q |}, None)
       else
